@@ -241,6 +241,46 @@ func histUnit(first, depth int) harness.Unit {
 	}}
 }
 
+// aliasUnit: the cipher object must not keep a reference to the caller's key slice, and results
+// handed out earlier must not change when the caller reuses its buffers.
+func aliasUnit() harness.Unit {
+	return harness.Unit{Name: "caller-buffer-reuse", Run: func(c *harness.Ctx) {
+		blkIn := pu.Msg(77, 16)
+		for i := range keys {
+			for j := range keys {
+				keyBuf := append([]byte{}, keys[i]...)
+				A, _ := sm4.NewCipher(keyBuf)
+				copy(keyBuf, keys[j]) // caller rotates the key in place
+				B, _ := sm4.NewCipher(keyBuf)
+				for k := range keyBuf {
+					keyBuf[k] = 0xEE
+				}
+				c.Add("evaluations", 1)
+				c.DistinctS("nontrivial", fmt.Sprintf("alias/%d/%d", i, j))
+				wa, wb := make([]byte, 16), make([]byte, 16)
+				refsm4.Must(keys[i]).Encrypt(wa, blkIn)
+				refsm4.Must(keys[j]).Encrypt(wb, blkIn)
+				ga, gb := make([]byte, 16), make([]byte, 16)
+				src := append([]byte{}, blkIn...)
+				A.Encrypt(ga, src)
+				for k := range src {
+					src[k] = 0xEE // caller reuses the source buffer: ga must stay
+				}
+				B.Encrypt(gb, blkIn)
+				if !bytes.Equal(ga, wa) || !bytes.Equal(gb, wb) {
+					c.Violate(fmt.Sprintf("key-buffer-aliased:%d:%d", i, j), fmt.Sprintf("cipher objects created from one key buffer that the caller overwrote afterwards give %x / %x, want %x / %x", ga, gb, wa, wb), nil, nil)
+				}
+				da := make([]byte, 16)
+				A.Decrypt(da, wa)
+				if !bytes.Equal(da, blkIn) {
+					c.Violate(fmt.Sprintf("key-buffer-aliased-dec:%d:%d", i, j), "Decrypt after the caller overwrote its key buffer is wrong", nil, nil)
+				}
+			}
+		}
+		c.Sample("NewCipher(keyBuf); overwrite keyBuf in place; NewCipher(keyBuf); scribble; both objects must still use their original keys")
+	}}
+}
+
 // Prop registers C05.
 var Prop = &harness.Prop{
 	ID:    "C05",
@@ -266,7 +306,7 @@ var Prop = &harness.Prop{
 		for k := range keys {
 			u = append(u, tableUnit(k))
 		}
-		u = append(u, keyUnit(), keyLenUnit())
+		u = append(u, keyUnit(), keyLenUnit(), aliasUnit())
 		return u
 	},
 }
